@@ -247,6 +247,22 @@ fn bb_replays(ctx: &Ctx, report: &mut Report) -> u64 {
                 Err(e) => report.infra_errors.push(e),
             }
         }
+        if r["engine"] == "BB-wide" {
+            match super::bb_c03w::replay_wide(r) {
+                Ok(res) => {
+                    n += 1;
+                    if let Some(msg) = res.violation {
+                        println!("  replay {} still fails: {}", path.display(), msg);
+                        report.fail(Failure {
+                            message: msg,
+                            signature: res.signature.unwrap_or_default(),
+                            replay: res.replay,
+                        });
+                    }
+                }
+                Err(e) => report.infra_errors.push(e),
+            }
+        }
         if r["engine"] == "BB-c11w" {
             match replay_c11w(r) {
                 Ok(res) => {
@@ -989,6 +1005,22 @@ fn inc_part(ctx: &Ctx, report: &mut Report, which: &'static str, neutral: bool, 
             stream: stream + 500,
         };
         let (part, failures) = run_prop(&pr, || inc_case(neutral), |c: &IncCase| eval_inc_bb(c, which));
+        report.add(part);
+        for f in failures {
+            report.fail(f);
+        }
+    }
+    if which != "c13" {
+        let pr = PropRun {
+            ctx,
+            engine: "BB-wide",
+            rule: "2-16 targets with declared inputs (optionally a command input, a declared output, half of them in an imported project) requested together through the real binary, their scripts finishing at the same moment (bounded rendezvous) so that all states are recorded concurrently, under 1/2/4/default runtime threads; then 1-2 untouched re-invocations (no script may run), an edit of a generated subset of inputs (exactly those scripts run), and a last untouched invocation; non-trivial = >= 4 targets finishing together; distinct = #targets x rendezvous x projects x #edited x runtime threads",
+            total_cases: ctx.tier.pick(40, 400),
+            threads: 4.min(ctx.threads),
+            max_shrink_iters: 30,
+            stream: stream + 700,
+        };
+        let (part, failures) = run_prop(&pr, super::bb_c03w::wide_case, |c: &super::bb_c03w::WideCase| super::bb_c03w::eval_wide(c, which));
         report.add(part);
         for f in failures {
             report.fail(f);
